@@ -9,11 +9,11 @@ NV, NX = 3, 2
 GEN_FINDLAST_EMPTY = True      # findLast("") is generated (reference answer: length())
 
 # argument shape of every op:  i k m d n n2  (the op line always carries all six)
-VAR_K = {"copy", "assign", "append", "prepend", "compare", "rel", "eq", "starts", "ends", "printf"}
+VAR_K = {"copy", "assign", "append", "prepend", "compare", "cmpx", "rel", "eq", "starts", "ends", "printf"}
 ALPHA = [97, 66, 32, 44, 233, 0]
 ALL_OPS = ["lit", "assignlit", "attach", "ctorbuf", "ctorfill", "ctorcap", "copy", "assign", "append", "prepend",
            "appendb", "prependb", "appendc", "clear", "resize", "reserve", "detach", "replacec", "replace", "lower",
-           "upper", "trim", "printf", "printfw", "join", "split", "lpush", "cstr", "cstrm", "compare", "rel", "eq",
+           "upper", "trim", "printf", "printfw", "join", "split", "lpush", "cstr", "cstrm", "compare", "cmpx", "rel", "eq",
            "starts", "ends", "findc", "findlastc", "findcs", "find", "finds", "findlast", "substr", "token", "tokens"]
 
 
@@ -43,7 +43,7 @@ def rand_exec(rng, nops):
          ("assign", 6), ("append", 7), ("prepend", 7), ("appendb", 5), ("prependb", 4), ("appendc", 3), ("clear", 2),
          ("resize", 4), ("reserve", 3), ("detach", 1), ("replacec", 3), ("replace", 8), ("lower", 2), ("upper", 2),
          ("trim", 4), ("printf", 3), ("printfw", 1), ("join", 3), ("split", 4), ("lpush", 2), ("cstr", 4), ("cstrm", 2),
-         ("compare", 3), ("rel", 2), ("eq", 3), ("starts", 3), ("ends", 3), ("findc", 2), ("findlastc", 2),
+         ("compare", 3), ("cmpx", 4), ("rel", 2), ("eq", 3), ("starts", 3), ("ends", 3), ("findc", 2), ("findlastc", 2),
          ("findcs", 2), ("find", 3), ("finds", 2), ("findlast", 3), ("substr", 4), ("token", 3), ("tokens", 3)]
     names = [w[0] for w in W]
     weights = [w[1] for w in W]
@@ -62,6 +62,8 @@ def rand_exec(rng, nops):
             k = i if rng.random() < 0.3 else rng.randint(1, NV)
             if op == "printf":
                 n = rng.choice([0, 7, 42, -3, 1000])
+            if op == "cmpx":         # at most n bytes: below, at and beyond the lengths (beyond: the terminator must stop it)
+                n = rng.choice([0, 1, 2, 3, 4, 5, 8, 12, 40])
         elif op == "replace":
             k = i if rng.random() < 0.15 else rng.randint(1, NV)
             m = i if rng.random() < 0.2 else rng.randint(1, NV)
